@@ -44,7 +44,9 @@
 (*  -- kind "race" ------------------------------------------------------------*)
 (*  race      site             the Go race detector reported a data race on  *)
 (*                             the memory named by site while the scenarios  *)
-(*                             ran (the property demands race freedom)       *)
+(*                             ran (the property demands race freedom), or   *)
+(*                             the runtime aborted the process with a fatal  *)
+(*                             "concurrent map ..." error there              *)
 (*  end                        the scenario is over                          *)
 EXTENDS Naturals, Sequences, FiniteSets
 
